@@ -5,10 +5,13 @@ import (
 	"go/constant"
 	"go/token"
 	"go/types"
+	"sort"
 
+	"golang.org/x/tools/go/packages"
 	"golang.org/x/tools/go/ssa"
 
 	"mtverif/internal/core"
+	"mtverif/internal/fde"
 	"mtverif/internal/tree"
 )
 
@@ -21,7 +24,8 @@ type charsetModel struct {
 	sniffers  map[string]*ssa.Function // key constant -> function
 	snifKeys  []string
 	mapAlloc  ssa.Value
-	mapGlobal *ssa.Global // set when the map lives in a package variable
+	mapGlobal *ssa.Global   // set when the map lives in a package variable
+	dispFn    *ssa.Function // set when the sniffers are selected by a function (switch on the type) instead of a map
 	bomFn     *ssa.Function
 	bomTable  *ssa.Global
 	boms      []bomEntry
@@ -41,6 +45,113 @@ func (m *charsetModel) isSnifferMap(v ssa.Value) bool {
 		return true
 	}
 	return false
+}
+
+// findDispatch looks for the function form of the sniffer table: a function of
+// the root package from a string to func([]byte) string whose result, folded
+// for every string constant it compares its parameter with, is a charset
+// function, and nil for any other string.
+func (m *charsetModel) findDispatch(c *core.Ctx) {
+	for _, f := range c.SrcFuncs() {
+		if core.FuncPkg(f) == nil || core.FuncPkg(f).Pkg.Path() != core.PkgRoot || len(f.Params) != 1 || !core.IsString(f.Params[0].Type()) || f.Signature.Results().Len() != 1 {
+			continue
+		}
+		sig, ok := f.Signature.Results().At(0).Type().Underlying().(*types.Signature)
+		if !ok || sig.Params().Len() != 1 || !core.IsByteSlice(sig.Params().At(0).Type()) || sig.Results().Len() != 1 || !core.IsString(sig.Results().At(0).Type()) {
+			continue
+		}
+		keys := []string{}
+		for _, b := range f.Blocks {
+			for _, in := range b.Instrs {
+				if bo, ok := in.(*ssa.BinOp); ok && bo.Op == token.EQL {
+					for _, pr := range [][2]ssa.Value{{bo.X, bo.Y}, {bo.Y, bo.X}} {
+						if pr[0] == ssa.Value(f.Params[0]) {
+							if k, ok := core.ConstString(pr[1]); ok {
+								keys = append(keys, k)
+							}
+						}
+					}
+				}
+			}
+		}
+		eval := func(key string) (*ssa.Function, bool) {
+			ev := newEval(c)
+			ev.Env = fde.Env{f.Params[0]: constant.MakeString(key)}
+			exits, err := ev.Walk(f.Blocks[0], nil, nil, 0)
+			if err != nil || len(exits) != 1 || exits[0].Ret == nil {
+				return nil, false
+			}
+			r := core.Unwrap(exits[0].Ret.Results[0])
+			if fn, ok := r.(*ssa.Function); ok {
+				return fn, true
+			}
+			return nil, core.IsNilConst(r)
+		}
+		sn := map[string]*ssa.Function{}
+		okAll := len(keys) > 0
+		for _, k := range keys {
+			fn, ok := eval(k)
+			if !ok {
+				okAll = false
+			}
+			if fn != nil {
+				sn[k] = fn
+			}
+		}
+		if other, ok := eval("\x00no such type"); !ok || other != nil {
+			okAll = false
+		}
+		if !okAll || len(sn) == 0 {
+			continue
+		}
+		if m.dispFn != nil {
+			core.Bail("two sniffer selection functions: %s and %s", m.dispFn.Name(), f.Name())
+		}
+		m.dispFn = f
+		m.sniffers = sn
+		m.snifKeys = nil
+		for k := range sn {
+			m.snifKeys = append(m.snifKeys, k)
+		}
+		sort.Strings(m.snifKeys)
+	}
+}
+
+// snifLookup describes one consultation of the sniffer table: the function
+// value obtained, the key it was looked up by, and the test that it exists.
+type snifLookup struct {
+	key   ssa.Value
+	found func(de core.DomEdge) bool
+}
+
+// lookupOf: fv is a function value taken from the sniffer table (map lookup
+// with ok, or the selection function).
+func (m *charsetModel) lookupOf(fv ssa.Value) *snifLookup {
+	if ex, ok := fv.(*ssa.Extract); ok && ex.Index == 0 {
+		if lk, ok := ex.Tuple.(*ssa.Lookup); ok && m.isSnifferMap(lk.X) && lk.CommaOk {
+			return &snifLookup{key: lk.Index, found: func(de core.DomEdge) bool {
+				cond, val := core.StripNot(de.Cond, de.Val)
+				e2, ok := cond.(*ssa.Extract)
+				return ok && e2.Tuple == ssa.Value(lk) && e2.Index == 1 && val
+			}}
+		}
+	}
+	if call, ok := fv.(*ssa.Call); ok && m.dispFn != nil && call.Call.StaticCallee() == m.dispFn {
+		return &snifLookup{key: call.Call.Args[0], found: func(de core.DomEdge) bool {
+			cond, val := core.StripNot(de.Cond, de.Val)
+			bo, ok := cond.(*ssa.BinOp)
+			if !ok {
+				return false
+			}
+			for _, pr := range [][2]ssa.Value{{bo.X, bo.Y}, {bo.Y, bo.X}} {
+				if pr[0] == fv && core.IsNilConst(pr[1]) {
+					return (bo.Op == token.NEQ && val) || (bo.Op == token.EQL && !val)
+				}
+			}
+			return false
+		}}
+	}
+	return nil
 }
 
 type bomEntry struct {
@@ -88,6 +199,9 @@ func getCharset(c *core.Ctx) *charsetModel {
 		}
 	}
 	if builder == nil {
+		m.findDispatch(c)
+	}
+	if builder == nil && m.dispFn == nil {
 		core.Bail("no sniffer map (map from type constant to charset function) found in package mimetype")
 	}
 	// where is it consulted? directly, or through the package variable it is stored in
@@ -106,6 +220,18 @@ func getCharset(c *core.Ctx) *charsetModel {
 				if lk, ok := in.(*ssa.Lookup); ok && m.isSnifferMap(lk.X) {
 					if m.walk != nil && m.walk != f {
 						core.Bail("the sniffer map is consulted in two functions: %s and %s", m.walk.Name(), f.Name())
+					}
+					m.walk = f
+				}
+			}
+		}
+	}
+	if m.dispFn != nil {
+		for _, f := range c.SrcFuncs() {
+			for _, ci := range core.Calls(f) {
+				if ci.Common().StaticCallee() == m.dispFn {
+					if m.walk != nil && m.walk != f {
+						core.Bail("the sniffer selection is consulted in two functions: %s and %s", m.walk.Name(), f.Name())
 					}
 					m.walk = f
 				}
@@ -190,6 +316,12 @@ func constBomTable(c *core.Ctx, g *ssa.Global) ([]bomEntry, bool) {
 						case tv.Value != nil && tv.Value.Kind() == constant.String && core.IsString(tv.Type):
 							e.name = constant.StringVal(tv.Value)
 						default:
+							// a named package-level slice assigned once by the initialiser stands for its initialiser
+							if id, isId := ast.Unparen(val).(*ast.Ident); isId {
+								if init := namedSliceInit(c, p, id); init != nil {
+									val = init
+								}
+							}
 							bs, good := constBytesExpr(p.TypesInfo, val)
 							if !good {
 								ok = false
@@ -205,6 +337,44 @@ func constBomTable(c *core.Ctx, g *ssa.Global) ([]bomEntry, bool) {
 		})
 	}
 	return out, found && ok
+}
+
+// namedSliceInit: id names a package-level variable of its own package whose
+// only assignment is its declaration's initialiser; returns that expression.
+func namedSliceInit(c *core.Ctx, p *packages.Package, id *ast.Ident) ast.Expr {
+	obj, ok := p.TypesInfo.Uses[id].(*types.Var)
+	if !ok || obj.Pkg() != p.Types || obj.Parent() != p.Types.Scope() {
+		return nil
+	}
+	sp := c.SSA[p.PkgPath]
+	if sp == nil {
+		return nil
+	}
+	g, ok := sp.Members[obj.Name()].(*ssa.Global)
+	if !ok || tree.GlobalInit(g) == nil {
+		return nil
+	}
+	var out ast.Expr
+	for _, f := range p.Syntax {
+		for _, d := range f.Decls {
+			gd, ok := d.(*ast.GenDecl)
+			if !ok {
+				continue
+			}
+			for _, sp := range gd.Specs {
+				vs, ok := sp.(*ast.ValueSpec)
+				if !ok || len(vs.Values) != len(vs.Names) {
+					continue
+				}
+				for i, nm := range vs.Names {
+					if p.TypesInfo.Defs[nm] == obj {
+						out = vs.Values[i]
+					}
+				}
+			}
+		}
+	}
+	return out
 }
 
 // constBytesExpr folds []byte{...} and []byte("...") expressions.
